@@ -73,7 +73,7 @@ def run_shards(mod, prop, tier, seed, nshards, watchdog_s, only_shard=None):
             tail = ""
             try:
                 with open(log.name, "rb") as f:
-                    tail = f.read()[-1500:].decode("utf8", "replace")
+                    tail = f.read()[-400:].decode("utf8", "replace")
             except OSError:
                 pass
             problems.append(f"shard {i} died rc={rc}: {tail}")
